@@ -532,6 +532,23 @@ theorem run_inv (env : Env) (hE : EnvOk env) (p : Params) (ops : List (Int × Op
     | notFound => simp only; exact ih s hI (fun y hy => hops y (by simp [hy]))
     | panic => simp only; exact ih s hI (fun y hy => hops y (by simp [hy]))
 
+/-- the invariant over histories whose parameters change between operations -/
+theorem runP_inv (env : Env) (hE : EnvOk env) (ops : List (Params × Int × Op)) (s : St) (hI : Inv env s)
+    (hops : ∀ x, x ∈ ops → OpOk env x.2.2) : Inv env (runP env s ops) := by
+  induction ops generalizing s with
+  | nil => exact hI
+  | cons x rest ih =>
+    obtain ⟨p, now, op⟩ := x
+    unfold runP
+    cases hs : step env p now s op with
+    | ok s1 =>
+      simp only
+      exact ih s1 (step_inv env hE p now s s1 op hI (hops (p, now, op) (by simp)) hs)
+        (fun y hy => hops y (by simp [hy]))
+    | err => simp only; exact ih s hI (fun y hy => hops y (by simp [hy]))
+    | notFound => simp only; exact ih s hI (fun y hy => hops y (by simp [hy]))
+    | panic => simp only; exact ih s hI (fun y hy => hops y (by simp [hy]))
+
 /-- the empty module: no auction, nothing held -/
 def emptySt (nextId : Nat) (bal : Bal) : St := { auc := fun _ => none, nextId := nextId, index := [], bal := bal }
 
